@@ -176,7 +176,9 @@ func (txn *Txn) Set(key, val []byte) error {
 	if !txn.update {
 		return errors.New("No sets or deletes are allowed in a read-only transaction")
 	}
-	txn.ops = append(txn.ops, op{k: append([]byte{}, key...), v: append([]byte{}, val...)})
+	// as documented: "The current transaction keeps a reference to the key and val byte slice arguments.
+	// Users must not modify key and val until the end of the transaction."  No copy is taken.
+	txn.ops = append(txn.ops, op{k: key, v: val})
 	return nil
 }
 
@@ -184,7 +186,7 @@ func (txn *Txn) Delete(key []byte) error {
 	if !txn.update {
 		return errors.New("No sets or deletes are allowed in a read-only transaction")
 	}
-	txn.ops = append(txn.ops, op{del: true, k: append([]byte{}, key...)})
+	txn.ops = append(txn.ops, op{del: true, k: key}) // keeps a reference to key (documented)
 	return nil
 }
 
@@ -201,6 +203,7 @@ var DefaultIteratorOptions = IteratorOptions{PrefetchValues: true, PrefetchSize:
 type Iterator struct {
 	snap []entry
 	pos  int
+	buf  []byte // key buffer reused from item to item
 }
 
 // NewIterator iterates over a snapshot taken now, in ascending key order.
@@ -226,7 +229,14 @@ func (it *Iterator) ValidForPrefix(prefix []byte) bool {
 	return it.pos < len(it.snap) && bytes.HasPrefix(it.snap[it.pos].k, prefix)
 }
 func (it *Iterator) Next()       { it.pos++ }
-func (it *Iterator) Item() *Item { return &Item{it.snap[it.pos].k, it.snap[it.pos].v} }
+
+// Item: as documented, "Key is only valid as long as item is valid" - the iterator reuses one key buffer, so a key
+// slice kept across Next() changes under its holder (the real library recycles items the same way); KeyCopy is the
+// way to keep a key.
+func (it *Iterator) Item() *Item {
+	it.buf = append(it.buf[:0], it.snap[it.pos].k...)
+	return &Item{it.buf, it.snap[it.pos].v}
+}
 
 type WriteBatch struct {
 	db  *DB
@@ -234,12 +244,13 @@ type WriteBatch struct {
 }
 
 func (db *DB) NewWriteBatch() *WriteBatch { return &WriteBatch{db: db} }
+// Set / Delete are "equivalent of Txn.Set / Txn.Delete": the batch keeps references to the slices until Flush.
 func (wb *WriteBatch) Set(k, v []byte) error {
-	wb.ops = append(wb.ops, op{k: append([]byte{}, k...), v: append([]byte{}, v...)})
+	wb.ops = append(wb.ops, op{k: k, v: v})
 	return nil
 }
 func (wb *WriteBatch) Delete(k []byte) error {
-	wb.ops = append(wb.ops, op{del: true, k: append([]byte{}, k...)})
+	wb.ops = append(wb.ops, op{del: true, k: k})
 	return nil
 }
 func (wb *WriteBatch) Flush() error {
